@@ -498,6 +498,7 @@ func (r *Resolver) onStructLike(g *Scope, name string, t *parser.Type, v *parser
 	}
 
 	var kvs []string
+	named := make(map[string]bool)
 	for _, mcv := range v.TypedValue.Map {
 		if mcv.Key.Type != parser.ConstType_ConstLiteral {
 			return "", fmt.Errorf("expect literals as keys in default value of struct type '%s', got '%s'", name, mcv.Key.Type)
@@ -534,6 +535,20 @@ func (r *Resolver) onStructLike(g *Scope, name string, t *parser.Type, v *parser
 			if !strings.HasPrefix(val, "&") && !f.Type.Category.IsStructLike() {
 				val = "&" + val
 			}
+		}
+		named[f.Name] = true
+		kvs = append(kvs, fmt.Sprintf("%s: %s,", key, val))
+	}
+	// fields the literal does not name take their declared default (a Go
+	// composite literal would leave them at the zero value)
+	for _, f := range st.Fields {
+		if named[f.Name] || !f.IsSetDefault() {
+			continue
+		}
+		key := file.StructLike(st.Name).Field(f.Name).GoName().String()
+		val, err := r.resolveConst(file, st.Name+"."+f.Name, f.Type, f.Default)
+		if err != nil {
+			return "", err
 		}
 		kvs = append(kvs, fmt.Sprintf("%s: %s,", key, val))
 	}
